@@ -786,4 +786,49 @@ def strictPrims : Prims := { asciiPrims with toASCII := fun s => (s, s.all (fun 
 example : isASCII (toASCII strictPrims ex1).1 = true ∧ (toASCII strictPrims ex1).2 = true :=
   ⟨C17_toASCII_ok_is_ascii strictPrims ex1 (by intro d h; simpa [strictPrims, isASCII] using h) (by decide), by decide⟩
 
+/-! ## crash-freedom: every modelled function is total (round 9)
+
+In Lean a function returns for every argument; the content of the statements below is the *shape* of the
+model of a call (`run`): `Outcome` has a constructor for a Go panic and `run` never produces it, for any
+input (code points, or arbitrary bytes decoded the way Go's `range` does), any length, any primitives. The
+harness observes every call of the real function under `recover` and prints `panic` for a crash — by
+`C17_no_panic` that observation never agrees with the model (a divergence), and it is the monitor violation
+`C17/panic` with the call as replay. -/
+
+/-- **C17 (crash-freedom obligation).** No call of a modelled function crashes. -/
+theorem C17_no_panic (P : Prims) (c : Call) : run P c ≠ Outcome.panic := by
+  cases c <;> simp only [run] <;> (try split) <;> simp
+
+/-- … on arbitrary byte strings (ill-formed UTF-8 included), whatever the function and the bytes -/
+theorem C17_no_panic_bytes (P : Prims) (c : Call) : run P (c.mapArgs decodeUtf8) ≠ Outcome.panic :=
+  C17_no_panic P _
+
+/-- **C17 (totality).** Every call returns a value, a value with an error flag, or an error. -/
+theorem C17_total (P : Prims) (c : Call) :
+    (∃ s, run P c = .str s) ∨ (∃ b, run P c = .flag b) ∨ (∃ s ok, run P c = .res s ok) ∨
+    (∃ m d, run P c = .parts m d) ∨ run P c = .err := by
+  cases c <;> simp only [run] <;> (try split) <;> simp
+
+/-- the functions that return `(string, error)` always return the string: on the error branch too (the
+callers use it: `ForLookup` returns the lower-cased input together with the error) -/
+theorem C17_string_result_always (P : Prims) (a : Str) :
+    (∃ s ok, run P (.forlookup a) = .res s ok) ∧ (∃ s ok, run P (.cleandomain a) = .res s ok) ∧
+    (∃ s ok, run P (.toascii a) = .res s ok) ∧ (∃ s ok, run P (.tounicode a) = .res s ok) ∧
+    (∃ s ok, run P (.dnsforlookup a) = .res s ok) ∧ (∃ s ok, run P (.dnstounicode a) = .res s ok) := by
+  simp [run]
+
+/-- `Equal` / `dns.Equal` answer for every pair, and the answer is the comparison of the keys — in
+particular when both keys come from the error branch (no input is "too malformed to compare") -/
+theorem C17_equal_total (P : Prims) (a b : Str) :
+    ∃ r, run P (.equal a b) = .flag r ∧ (r = true ↔ key P a = key P b) :=
+  ⟨equal P a b, rfl, C17_equal_iff_key_eq P a b⟩
+
+/-- an over-long label behind an ACE prefix in upper case (`XN--` + 70 × `a`, 74 octets — longer than any
+A-label) is an input like any other: the call returns, the prefix is lower-cased, the key is computed -/
+def longAce : Str := [88, 78, 45, 45] ++ List.replicate 70 97
+example : run asciiPrims (.dnsforlookup longAce) = .res ([120, 110, 45, 45] ++ List.replicate 70 97) true := by decide
+example : run asciiPrims (.equal ([117, 64] ++ longAce) ([85, 64] ++ longAce.map asciiLower)) = .flag true := by decide
+example : run asciiPrims (.validdomain longAce) = .flag false := by decide
+example : run asciiPrims ((Call.forlookup [0x63, 0xE9]).mapArgs decodeUtf8) ≠ .panic := C17_no_panic_bytes _ _
+
 end MaddyVerif.C17
